@@ -53,11 +53,86 @@ fn write_if_changed(p: &Path, s: &str) {
 }
 
 fn crate_source(items: &[String]) -> String {
+    let order: Vec<usize> = (0..items.len()).collect();
+    crate_source_ordered(items, &order)
+}
+
+/// the same modules (same names), laid out in the given order: rustc expands derives in
+/// source order, so this is the *history* fault of the end-to-end tier
+fn crate_source_ordered(items: &[String], order: &[usize]) -> String {
     let mut s = String::from("#![allow(warnings)]\n");
-    for (i, it) in items.iter().enumerate() {
-        s.push_str(&format!("pub mod m{} {{\nuse o2o::o2o;\n#[derive(o2o)]\n{}}}\n", i, it));
+    for i in order {
+        s.push_str(&format!("pub mod m{} {{\nuse o2o::o2o;\n#[derive(o2o)]\n{}}}\n", i, items[*i]));
     }
     s
+}
+
+/// `rej` rendering made independent of where a module sits in the file: every diagnostic is
+/// keyed by its module and its line relative to the module's first line, then sorted by module
+fn normalise_rej(rendering: &str, lib_rs: &str) -> String {
+    let mut starts: Vec<(usize, usize)> = Vec::new(); // (first line, module index)
+    for (ln, line) in lib_rs.lines().enumerate() {
+        if let Some(rest) = line.strip_prefix("pub mod m") {
+            if let Some(k) = rest.split(' ').next().and_then(|x| x.parse::<usize>().ok()) {
+                starts.push((ln + 1, k));
+            }
+        }
+    }
+    let mut out: Vec<(usize, usize, String)> = Vec::new();
+    for (seq, l) in rendering.lines().enumerate() {
+        let mut parts = l.rsplitn(2, '|');
+        let pos = parts.next().unwrap_or("");
+        let head = parts.next().unwrap_or("");
+        let line: usize = pos.split(':').next().and_then(|x| x.parse().ok()).unwrap_or(0);
+        let col = pos.split(':').nth(1).unwrap_or("");
+        let (start, k) = starts.iter().rev().find(|(s, _)| *s <= line).copied().unwrap_or((0, usize::MAX));
+        out.push((k, seq, format!("m{}|{}|+{}:{}", k, head, line.saturating_sub(start), col)));
+    }
+    // stable: diagnostics of one module keep their emitted order
+    out.sort_by_key(|x| (x.0, x.1));
+    out.into_iter().map(|x| x.2).collect::<Vec<_>>().join("\n")
+}
+
+/// `acc` rendering split into module blocks, hygiene annotations stripped, sorted by module
+fn normalise_acc(rendering: &str) -> String {
+    // strip /* n#m */ comments
+    let mut t = String::with_capacity(rendering.len());
+    let mut rest = rendering;
+    while let Some(i) = rest.find("/*") {
+        t.push_str(&rest[..i]);
+        match rest[i..].find("*/") {
+            Some(j) => rest = &rest[i + j + 2..],
+            None => {
+                rest = "";
+                break;
+            },
+        }
+    }
+    t.push_str(rest);
+    let t: String = t.split_whitespace().collect::<Vec<_>>().join(" ");
+    let mut blocks: Vec<(usize, String)> = Vec::new();
+    let mut cur: Option<(usize, String)> = None;
+    for piece in t.split("pub mod m") {
+        if cur.is_none() && blocks.is_empty() && !t.starts_with("pub mod m") {
+            cur = Some((usize::MAX, String::new())); // crate preamble
+        }
+        if let Some(c) = cur.take() {
+            if c.0 != usize::MAX {
+                blocks.push(c);
+            }
+        }
+        let k = piece.split(|c: char| !c.is_ascii_digit()).next().and_then(|x| x.parse::<usize>().ok());
+        if let Some(k) = k {
+            cur = Some((k, piece.trim().to_string()));
+        }
+    }
+    if let Some(c) = cur.take() {
+        if c.0 != usize::MAX {
+            blocks.push(c);
+        }
+    }
+    blocks.sort_by_key(|b| b.0);
+    blocks.into_iter().map(|b| format!("m{}", b.1)).collect::<Vec<_>>().join("\n")
 }
 
 fn cargo_cmd(dir: &Path, target: &Path, shim: Option<(&Path, &RunCfg)>) -> Command {
@@ -274,8 +349,39 @@ pub fn run(cfg: &Cfg, corpus: &Corpus) -> Result<TierResult, String> {
                     },
                 }
             }
+            // history fault: the same modules in reverse source order (rustc expands derives in
+            // source order, all in one process), compared module by module
+            let mut permuted_equal = json!(null);
+            if let Some(ref_r) = &reference {
+                let original = crate_source(items);
+                let order: Vec<usize> = (0..items.len()).rev().collect();
+                let reversed = crate_source_ordered(items, &order);
+                write_if_changed(&dir.join("src/lib.rs"), &reversed);
+                let rc = &runs[runs.len() - 1];
+                let r = if kind == "rej" { render_rej(&dir, &target, &shim, rc) } else { render_acc(&dir, &target, &shim, rc) };
+                write_if_changed(&dir.join("src/lib.rs"), &original);
+                let r = r?;
+                compiles += 1;
+                let (a, b) = if kind == "rej" { (normalise_rej(ref_r, &original), normalise_rej(&r, &reversed)) } else { (normalise_acc(ref_r), normalise_acc(&r)) };
+                permuted_equal = json!(a == b);
+                if a != b && violation.is_none() {
+                    let fd = first_diff(&a, &b);
+                    let path = cfg.verif.join("replays").join(format!("C19-{}-rustc-{}-{}-order.json", cfg.seed, backend.tag(), kind));
+                    let _ = std::fs::create_dir_all(cfg.verif.join("replays"));
+                    let v = json!({
+                        "property": "C19", "kind": "rustc_tier", "permuted": true,
+                        "what": "real cargo/rustc with the real o2o-macros dylib expanded the same items differently when their source order in the crate was reversed (all derives of a crate run in one rustc process, in source order)",
+                        "backend": backend.tag(), "crate_kind": kind, "repo": cfg.repo.to_string_lossy(),
+                        "lib_rs": original, "lib_rs_permuted": reversed,
+                        "reference_run": runcfg_json(&runs[0]), "faulty_run": runcfg_json(rc),
+                        "first_diff": fd,
+                    });
+                    std::fs::write(&path, serde_json::to_string_pretty(&v).unwrap()).map_err(|e| e.to_string())?;
+                    violation = Some((format!("{}-{} (reversed source order): {}", backend.tag(), kind, fd), path));
+                }
+            }
             let lines = reference.as_ref().map(|r| r.lines().count()).unwrap_or(0);
-            summary.push(json!({"backend": backend.tag(), "crate": kind, "items": items.len(), "runs": runs.len(), "runs_equal_to_first": equal, "rendering_lines": lines}));
+            summary.push(json!({"backend": backend.tag(), "crate": kind, "items": items.len(), "runs": runs.len(), "runs_equal_to_first": equal, "reversed_source_order_equal_module_by_module": permuted_equal, "rendering_lines": lines}));
         }
     }
     Ok(TierResult {
@@ -307,7 +413,35 @@ pub fn replay(cfg: &Cfg, v: &Value, path: &Path) -> i32 {
     write_if_changed(&dir.join("src/lib.rs"), v["lib_rs"].as_str().unwrap_or(""));
     let _ = cargo_cmd(&dir, &target, None).args(["build", "--offline", "-q"]).output();
     let f = |rc: &RunCfg| if kind == "rej" { render_rej(&dir, &target, &shim, rc) } else { render_acc(&dir, &target, &shim, rc) };
-    match (f(&a), f(&b)) {
+    let permuted = v["permuted"].as_bool().unwrap_or(false);
+    let ra = f(&a);
+    let rb = if permuted {
+        let original = v["lib_rs"].as_str().unwrap_or("").to_string();
+        let reversed = v["lib_rs_permuted"].as_str().unwrap_or("").to_string();
+        write_if_changed(&dir.join("src/lib.rs"), &reversed);
+        let r = f(&b);
+        write_if_changed(&dir.join("src/lib.rs"), &original);
+        match (ra, r) {
+            (Ok(x), Ok(y)) => {
+                let (x, y) = if kind == "rej" { (normalise_rej(&x, &original), normalise_rej(&y, &reversed)) } else { (normalise_acc(&x), normalise_acc(&y)) };
+                return if x != y {
+                    println!("replay (rustc tier, reversed source order): outputs differ: {}", first_diff(&x, &y));
+                    println!("VIOLATION property=C19 replay={}", path.display());
+                    1
+                } else {
+                    println!("replay (rustc tier): no longer reproduces");
+                    0
+                };
+            },
+            (Err(e), _) | (_, Err(e)) => {
+                eprintln!("harness error: {}", e);
+                return 2;
+            },
+        }
+    } else {
+        f(&b)
+    };
+    match (ra, rb) {
         (Ok(x), Ok(y)) => {
             if x != y {
                 println!("replay (rustc tier): outputs differ: {}", first_diff(&x, &y));
